@@ -118,6 +118,14 @@ func (c *Catalog) tagsFromTagsDirective(d *directive.Directive) ([]*Tag, *jerr.J
 	return tt, nil
 }
 
+// CheckTags checks a Tags directive by itself: its tags are attached to the
+// interactions that use the directive, but a Tags directive of a URL can be
+// left unused when every method of the URL has its own one.
+func (c *Catalog) CheckTags(d *directive.Directive) *jerr.JApiError {
+	_, je := c.tagsFromTagsDirective(d)
+	return je
+}
+
 func checkTagsDirective(d *directive.Directive) *jerr.JApiError {
 	if d.Annotation != "" {
 		return d.KeywordError(jerr.AnnotationIsForbiddenForTheDirective)
